@@ -1,13 +1,31 @@
 // C10 extractor: quaternion / matrix / axis-angle rotations (modules C10Quat, C10Algo).
 #include "sym.h"
+#include "c10frac.h" // FracS: Vec3::length at exact fractions (rattv), before any Imath header
 #include "shapes.h"
 #include "main.h"
+#include "c10extra.h"
 #include <ImathMatrixAlgo.h>
 OPAQUE_LENGTH (Vec3, "V3", 3)
+// the REAL Vec3::length at exact fractions with the fixed stubs (c10frac.h): the entries that call it (exp, angle, axis,
+// setAxisAngle, normalized, setRotationInternal, intermediate, M44.setAxisAngle) are then covered by troute.lean_tv instead of skipped
+static std::vector<symns::Frac> fracLength3 (const std::vector<symns::Frac>& a)
+{
+    return symns::fracRun ([&] {
+        IMATH_INTERNAL_NAMESPACE::Vec3<symns::FracS> v (a[0], a[1], a[2]);
+        return std::vector<symns::FracS>{v.length ()};
+    });
+}
+static int native_c10_q = (symns::natives ()["V3.length"].q = &fracLength3, 0);
 using namespace IMATH_INTERNAL_NAMESPACE;
 #include "c10priv.h"
 C10_STEAL (symns::Sym)
 C10_STEAL (double)
 C10_STEAL (float)
 #include "ops_c10.h"
-int main (int argc, char** argv) { return symns::sym_main (argc, argv); }
+int main (int argc, char** argv)
+{
+    int rc = symns::sym_main (argc, argv);
+    // intermediate (96 paths) never survives the generic rattv generator: hand-picked sparse keys, see c10extra.h
+    if (argc > 1 && std::string (argv[1]) == "rattv") symns::c10ExtraRatCases ("C10.Quat.intermediate", 3, false, argc > 2 ? strtoul (argv[2], 0, 10) : 1, argc > 3 ? atoi (argv[3]) : 3);
+    return rc;
+}
